@@ -1,14 +1,20 @@
 """C20 — Static asset and template lookup never escapes its root directory (DESIGN §7 C20, partial by nature).
 
-Lean model: Model/Assets.lean (lexical filter, containment, lookups, caches over a file-system model with model functions for
-kernel path resolution, realpath, weakly_canonical, lexically_normal/relative, open(O_NOFOLLOW)); theorems Props/C20.lean.
-Tie: translator unit `assets`; lockstep of the real iora::web::Assets + real std::filesystem/kernel against the model on random
-directory trees materialised under ctx.work; implementation-only monitors (content origin, OS realpath oracle, swap storm)."""
+Lean model: Model/Assets.lean (lexical filter, containment, lookups, caches, the read loop of readFile, over a file-system model with
+model functions for kernel path resolution, realpath, weakly_canonical, lexically_normal/relative, open(O_NOFOLLOW));
+Model/AssetsRace.lean (N threads on the double-checked caches, lock skeleton from Gen); Model/AssetsServe.lean (serveStatic glue,
+percentDecode).  Theorems: Props/C20.lean, Props/C20Race.lean, Props/C20Serve.lean.
+Tie: translator units `assets` (constants, call order, operand skeleton, census of every file-system token, read-loop and lock
+skeleton facts) and `assetserve`; lockstep of the real iora::web::Assets + real std::filesystem/kernel against the model on random
+directory trees materialised under ctx.work (harness/c20_assets.cpp: interposed stat/realpath/open/read, schedules at every
+system-call boundary, gated two-thread schedules) and of the real Application::serveStatic/render (harness/c20_serve.cpp, helper
+props/c20_servelib.py); implementation-only monitors (content origin, by-location, OS realpath oracle, swap storm)."""
 import os, json
 from vlib.core import Ctx, hexs, unhex, ddmin, ModelBuildError
+from props import c20_servelib as S
 
 ID = "C20"
-MODULES = ["IoraModel.Props.C20"]
+MODULES = ["IoraModel.Props.C20", "IoraModel.Props.C20Race"]
 ANCHOR_FILES = ["include/iora/web/assets.hpp"]
 
 W_TOKEN = b"@W@"          # placeholder for the sandbox directory in symbolic ops (corpus / replay files are portable)
@@ -69,6 +75,10 @@ def sop_from_json(js):
             out.append(("h", t["h"].encode("latin-1")))
         elif "e" in t:
             out.append(("e", t["e"][0], t["e"][1].encode("latin-1"), t["e"][2].encode("latin-1")))
+        elif "erep" in t:          # a file whose content is <unit> repeated and cut to <size> bytes (keeps corpus files small)
+            k, pth, unit, size = t["erep"]
+            unit = unit.encode("latin-1")
+            out.append(("e", k, pth.encode("latin-1"), (unit * (size // len(unit) + 1))[:size]))
         else:
             out.append(("l", [[None if x is None else x.encode("latin-1") for x in rec] for rec in t["l"]]))
     return out
@@ -143,6 +153,11 @@ def rel_target(frm_dir, to, rng):
     if not parts:
         parts = [b"."]
     return parts
+
+
+def up_from(dir_p, tail):
+    """relative spelling of sandbox-relative `tail` as seen from the physical directory `dir_p` (a tuple below the sandbox)"""
+    return b"../" * len(dir_p) + tail
 
 
 def noise(parts, rng, absolute):
@@ -305,6 +320,31 @@ def render_case(sops, W):
 
 
 # ------------------------------------------------------------------ name generator
+def pin_dirlink(t, base, rng, tag):
+    """The shape every run must reach in every mode (seed C20-a and its variants): a DIRECTORY link inside the root that
+    points outside it — to the `outside` tree (relative or absolute spelling) and to a sibling whose name has the root's name as a
+    prefix — and requests that go THROUGH it to a regular file.  Returns the request names (plain and noisy spellings)."""
+    names = []
+    sib = base[:-1] + (base[-1] + b"-evil",)
+    t.add_dir(sib)
+    t.add_file(sib + (b"e.txt",), t.fresh(sib + (b"e.txt",), b"SECRET"))
+    sub = base + (b"pl-sub",)
+    t.add_dir(sub)
+    l1 = base + (b"pl-" + tag,)
+    if rng.chance(1, 2):
+        ok1 = t.add_link(l1, noise(rel_target(base, (b"outside",), rng), rng, False))
+    else:
+        ok1 = t.add_link(l1, abs_of((b"outside",)) + (b"/" if rng.chance(1, 4) else b""))
+    l2 = sub + (b"sib",)
+    ok2 = t.add_link(l2, noise(rel_target(sub, sib, rng), rng, False))
+    if ok1:
+        names += [l1[-1] + b"/secret.txt", l1[-1] + b"/dir/secret2.txt", rng.choice([b"./", b""]) + l1[-1] + rng.choice([b"//", b"/./"]) + b"secret.txt",
+                  l1[-1] + b"/dir//secret2.txt"]
+    if ok2:
+        names += [b"pl-sub/sib/e.txt", b"pl-sub//sib/./e.txt"]
+    return names
+
+
 def rel_names(t, base):
     """relative spellings that lead (physically or through links) to something, seen from directory `base`"""
     out = []
@@ -454,6 +494,11 @@ def ref_contained_canonical(base, target):
 # ------------------------------------------------------------------ case generation
 def gen_fs_case(rng, idx, quick, wlen):
     t, cfg = gen_tree(rng)
+    pins = {}
+    for key in ("static", "templates"):
+        if cfg[key] is not None and cfg[key][0] == b"app":
+            pins[key] = pin_dirlink(t, cfg[key], rng, key.encode()[:2])
+    big = gen_big_files(t, cfg, rng) if idx % 8 == 3 else []
     cwd_p = rng.choice([(), (b"app",), (b"outside",)])
     sops = [tree_op(t, abs_of(cwd_p))]
     meta = {"cat": "fs", "tree": idx}
@@ -495,12 +540,20 @@ def gen_fs_case(rng, idx, quick, wlen):
     for kind, key in (("static", "static"), ("template", "templates")):
         base = cfg[key]
         names = gen_names(t, base if base is not None else (b"app", key.encode()), rng, nnames if kind == "static" else nnames // 3)
+        names += [(n, False) for n in pins.get(key, [])]
+        if kind == "static":
+            names += [(n, True) for n in big]
         if base is not None and rng.chance(1, 3):
             # names whose candidate string <root>/<name> is exactly around PATH_MAX (the root is canonical: sandbox + base)
             names += [(n, False) for n in boundary_names(wlen + sum(len(x) + 1 for x in base), rng)]
-        swap_targets = [abs_of((b"outside", b"secret.txt")), b"../" * 6 + b"outside/secret.txt", b"a.txt", b"nonexistent", abs_of((b"outside",)),
-                        abs_of((b"outside", b"a.txt.gz"))]
         for nm, pristine in names:
+            if rng.chance(1, 30):
+                sops.append(["readcfg", str(rng.choice([0, 1, 7, 4096, 65535, 65536])), str(rng.choice([0, 0, 2, 3, 5]))])
+            if pristine and base is not None and rng.chance(1, 25) and b"\0" not in nm:
+                sops.append(["readscript", H(abs_of(base) + b"/" + nm), gen_script(rng)])
+            leafdir = (base if base is not None else (b"app", key.encode())) + tuple(c for c in nm.split(b"/")[:-1] if c not in (b"", b"."))
+            swap_targets = [abs_of((b"outside", b"secret.txt")), up_from(leafdir, b"outside/secret.txt"), b"a.txt", b"nonexistent", abs_of((b"outside",)),
+                            abs_of((b"outside", b"a.txt.gz"))]
             sops.append([kind, H(nm)])
             if rng.chance(1, 6):
                 sops.append([kind, H(nm)])                      # hit the cache
@@ -520,6 +573,40 @@ def gen_fs_case(rng, idx, quick, wlen):
 
 
 SCHED_N = [0]
+BIG_SIZES = [0, 1, 65535, 65536, 65537, 131072, 200000]
+
+
+def gen_script(rng):
+    """answers of read(2): e = EINTR, x = another errno, k = at most k bytes"""
+    n = rng.range(0, 8)
+    toks = [rng.choice(["e", "e", "1", "2", "3", "7", "64", "4096", "65536", "70000"] + (["x"] if rng.chance(1, 6) else [])) for _ in range(n)]
+    return ",".join(toks) if toks else "-"
+
+
+def big_content(t, p, size):
+    head = t.fresh(p, b"BIG")
+    body = (head + b"|") * (size // (len(head) + 1) + 1)
+    c = body[:size]
+    if size >= len(head):
+        t.content_path.setdefault(c, p)
+    return c
+
+
+def gen_big_files(t, cfg, rng):
+    """files around the 64 KiB buffer of readFile's loop (0, 1, 65535, 65536, 65537, 131072, 200000 bytes), some with a `.gz` sibling"""
+    base = cfg["static"]
+    out = []
+    if base is None:
+        return out
+    for size in rng.choice([[0, 65536, 65537], [0, 1, 65535, 200000], [65536, 131072], [0, 65537, 200000]]):
+        p = base + (b"big%d.bin" % size,)
+        if t.add_file(p, big_content(t, p, size)):
+            out.append(p[-1])
+            if rng.chance(1, 2):
+                gz = base + (p[-1] + b".gz",)
+                t.add_file(gz, big_content(t, gz, rng.choice([0, 65537, 70000])))
+    return out
+
 
 
 def gen_sched(t, base, rng, kind, nm, pristine, sops, residual):
@@ -530,7 +617,8 @@ def gen_sched(t, base, rng, kind, nm, pristine, sops, residual):
          limitation, witnessed in Lean by A4_residual_intermediate_link) — lockstep only, the content monitor is told."""
     SCHED_N[0] += 1
     n = SCHED_N[0]
-    secret = [abs_of((b"outside", b"secret.txt")), b"../" * 7 + b"outside/secret.txt", abs_of((b"outside", b"a.txt.gz"))]
+    ldir = base + tuple(c for c in nm.split(b"/")[:-1] if c not in (b"", b"."))
+    secret = [abs_of((b"outside", b"secret.txt")), up_from(ldir, b"outside/secret.txt"), abs_of((b"outside", b"a.txt.gz"))]
     pts = "CROGZ" if kind == "static" else "CRO"
     pt = rng.choice(pts)
     k = rng.below(10)
@@ -559,14 +647,14 @@ def gen_sched(t, base, rng, kind, nm, pristine, sops, residual):
         leaf = d + (leafname,)
         name = b"/".join(leaf[len(base):])
         if rng.chance(1, 2):
-            mut = ["l", H(abs_of(leaf)), H(rng.choice(secret + [b"a.txt"]))]
+            mut = ["l", H(abs_of(leaf)), H(rng.choice([abs_of((b"outside", b"secret.txt")), up_from(d, b"outside/secret.txt"), b"a.txt"]))]
         else:
             mut = ["f", H(abs_of(leaf)), H(t.fresh(leaf, b"SCHNEW"))]
         pt = rng.choice("RO" if kind == "template" else "ROG")
     else:
         nd = b"nd%d" % n
         name = nd + rng.choice([b"/secret.txt", b"/dir/secret2.txt", b"/a.txt"])
-        mut = ["l", H(abs_of(base + (nd,))), H(rng.choice([abs_of((b"outside",)), b"../" * 7 + b"outside"]))]
+        mut = ["l", H(abs_of(base + (nd,))), H(rng.choice([abs_of((b"outside",)), up_from(base, b"outside")]))]
         pt = rng.choice("RO")
         residual.append(len(sops) + 1)
     # keep the generator's picture of the tree roughly in step (it only steers later picks)
@@ -605,7 +693,7 @@ def gen_mutation(t, cfg, rng, kind, nm):
         t.ent[p] = ("f", c)
         out.append(["put", "f", H(abs_of(p)), H(c)])
     elif k == 1:
-        tgt = rng.choice([abs_of((b"outside", b"secret.txt")), b"../" * len(p[1:]) + b"outside/secret.txt", b"a.txt", b"missing"])
+        tgt = rng.choice([abs_of((b"outside", b"secret.txt")), up_from(p[:-1], b"outside/secret.txt"), b"a.txt", b"missing"])
         t.ent[p] = ("l", tgt)
         out.append(["put", "l", H(abs_of(p)), H(tgt)])
     elif k == 2 and old is not None:
@@ -629,11 +717,17 @@ def gen_mutation(t, cfg, rng, kind, nm):
 
 def gen_emb_case(rng, idx, quick):
     t, cfg = gen_tree(rng)
+    pins = pin_dirlink(t, (b"ext",), rng, b"em")
+    t.add_link((b"extloop",), b"extloop")
     cwd_p = rng.choice([(), (b"app",)])
     sops = [tree_op(t, abs_of(cwd_p))]
-    extdir = rng.choice([abs_of((b"ext",)), abs_of((b"ext",)) + b"/", abs_of((b"extlink",)), abs_of((b"missing-ext",)), abs_of((b"missing-ext",)) + b"/",
-                         b"", abs_of((b"app", b"..", b"ext")), abs_of((b"outside", b"secret.txt"))] + ([b"ext", b"./ext/", b"extlink"] if cwd_p == () else [b"../ext"]))
+    good_ext = [abs_of((b"ext",)), abs_of((b"ext",)) + b"/", abs_of((b"extlink",)), abs_of((b"app", b"..", b"ext"))] + ([b"ext", b"./ext/", b"extlink"] if cwd_p == () else [b"../ext"])
+    bad_ext = [abs_of((b"missing-ext",)), abs_of((b"missing-ext",)) + b"/", b"", abs_of((b"outside", b"secret.txt")), abs_of((b"extloop",)),
+               abs_of((b"ext",)) + b"/" + b"./" * 2100, abs_of((b"ext", b"A" * 256))]
+    resolves = not rng.chance(1, 5)
+    extdir = rng.choice(good_ext if resolves else bad_ext)
     names = [n for n, _ in gen_names(t, (b"ext",), rng, 40)]
+    pristine = dict(gen_names(t, (b"ext",), rng, 6))
     # registry tables must be SORTED (binary search): keys containing the sandbox placeholder would sort differently once rendered
     reg_ok = [n for n in names if W_TOKEN not in n]
     names_all = names
@@ -644,16 +738,123 @@ def gen_emb_case(rng, idx, quick):
         c = b"EMB%d:" % i + n[-20:]
         statics.append([n, c, (b"EMBGZ%d" % i) if rng.chance(1, 3) else None])
     templates = sorted([[n, b"EMBT:" + n[-20:]] for n in set([b"t.html", b"p/q.html"] + names[6:9])], key=lambda r: r[0])
-    externals = sorted(set(names[9:] + [b"a.txt", b"e1.txt"]))
+    sched_names = [n for n, pr in pristine.items() if pr and W_TOKEN not in n and n not in emb_names]
+    # every system-call boundary of the EXTERNAL_DIR path (the harness counts TWO realpaths: the base, then the candidate); generated
+    # first because the names the schedules create must be in the externalised set
+    tail, tail_res = [], []
+    if resolves:
+        for nm in sched_names[:4]:
+            gen_sched_emb(t, rng, nm, tail)
+        for _ in range(3):
+            gen_sched(t, (b"ext",), rng, "static", b"a.txt", False, tail, tail_res)
+        # and, deterministically, every one of the five points on a file that has a regular `.gz` sibling
+        sch, schgz = (b"ext", b"sch.txt"), (b"ext", b"sch.txt.gz")
+        for pt in "CROGZ":
+            tail.append(["put", "f", H(abs_of(sch)), H(t.fresh(sch, b"SCHE"))])
+            tail.append(["put", "f", H(abs_of(schgz)), H(t.fresh(schgz, b"SCHEGZ"))])
+            tgt = rng.choice([abs_of((b"outside", b"secret.txt")), b"../outside/secret.txt", abs_of((b"outside", b"a.txt.gz"))])
+            tail.append(["sched", "static", H(b"sch.txt"), pt, "l", H(abs_of(sch if pt in "CRO" else schgz)), H(tgt)])
+            tail.append(["static", H(b"sch.txt")])
+    sched_created = [x[2][1] for x in tail if x[0] == "sched"]
+    externals = sorted(set(names[9:] + [b"a.txt", b"e1.txt"] + pins + sched_names + [n for n in sched_created if W_TOKEN not in n]))
     # records are comma/colon separated hex: any byte string is fine
     sops.append(["newemb", H(extdir), ("l", statics), ("l", templates), ("l", [[x] for x in externals])])
+    residual = []
+    for nm in pins:
+        sops.append(["static", H(nm)])
+        if rng.chance(1, 4):
+            sops.append(["template", H(nm)])
     for nm in names_all + [b"e1.txt", b"dir/e2.css", b"t.html", b"a.txt"]:
         sops.append(["static", H(nm)])
         if rng.chance(1, 3):
             sops.append(["template", H(nm)])
         if rng.chance(1, 15):
             sops.append(["swapstatic", H(nm), H(rng.choice([abs_of((b"outside", b"secret.txt")), b"../outside/secret.txt"]))])
-    return {"sops": sops, "tree_obj": t, "cfg": cfg, "cat": "embedded", "tree": idx, "emb_contents": [s[1] for s in statics] + [s[2] for s in statics if s[2]] + [x[1] for x in templates]}
+        if rng.chance(1, 20):
+            sops.append(["reload"])                       # a literal no-op in embedded mode
+        if rng.chance(1, 25):
+            sops.append(["readcfg", str(rng.choice([0, 1, 7, 4096])), str(rng.choice([0, 2, 3]))])
+    residual = [len(sops) + r for r in tail_res]
+    sops += tail
+    return {"sops": sops, "tree_obj": t, "cfg": cfg, "cat": "embedded", "tree": idx, "residual": residual, "ext_resolves": resolves,
+            "emb_contents": [s[1] for s in statics] + [s[2] for s in statics if s[2]] + [x[1] for x in templates]}
+
+
+def gen_sched_emb(t, rng, nm, sops):
+    """the leaf of an externalised request (or its .gz sibling) is replaced just before one of the points C R O G Z"""
+    comps = [c for c in nm.split(b"/") if c and c != b"."]
+    if not comps or b".." in comps or any(len(c) > 250 for c in comps):
+        return
+    leaf = (b"ext",) + tuple(comps)
+    if leaf in t.ent and t.ent[leaf][0] == "d":
+        return
+    secret = [abs_of((b"outside", b"secret.txt")), up_from(leaf[:-1], b"outside/secret.txt"), abs_of((b"outside", b"a.txt.gz"))]
+    which = rng.below(5)
+    if which == 0:
+        mut = ["f", H(abs_of(leaf)), H(t.fresh(leaf, b"SCH"))]
+    elif which == 1:
+        mut = ["r", H(abs_of(leaf))]
+    elif which == 2:
+        mut = ["l", H(abs_of(leaf) + b".gz"), H(rng.choice(secret))]
+    else:
+        mut = ["l", H(abs_of(leaf)), H(rng.choice(secret))]
+    mp = tuple(comps_of(mut[1][1].replace(W_TOKEN, b"")))
+    for q in [q for q in t.ent if len(q) > len(mp) and q[:len(mp)] == mp]:
+        del t.ent[q]
+    if mut[0] == "r":
+        t.ent.pop(mp, None)
+    elif mp[:-1] in t.ent and t.ent[mp[:-1]][0] == "d":
+        t.ent[mp] = ("l", mut[2][1]) if mut[0] == "l" else ("f", mut[2][1])
+    sops.append(["sched", "static", H(nm), rng.choice("CROGZ")] + mut)
+    sops.append(["static", H(nm)])
+
+
+def gen_race_case(rng, idx):
+    """Two threads on one filesystem-mode instance, deterministically gated: A is parked just before its first open(2) (validated,
+    first cache probe missed), B runs to completion (a lookup of the same / another name, or reload), the file system changes, A
+    finishes (build outside the lock, second probe + emplace).  Model: the small-step machine of Model/AssetsRace.lean."""
+    for _ in range(20):
+        t, cfg = gen_tree(rng)
+        if all(cfg[k] is not None and cfg[k][0] == b"app" for k in ("static", "templates")):
+            break
+    else:
+        return None
+    sops = [tree_op(t, abs_of(()))]
+    sops.append(["newfs", H(abs_of((b"app",))), "1" if rng.chance(1, 5) else "0"])
+    for r in range(rng.range(6, 10)):
+        kindA = rng.choice(["static", "static", "template"])
+        base = cfg["static" if kindA == "static" else "templates"]
+        files = [p for p in t.paths() if t.ent[p][0] == "f" and p[:len(base)] == base and len(p) > len(base) and all(len(c) < 200 for c in p)]
+        if not files:
+            continue
+        pa = rng.choice(files)
+        nA = b"/".join(pa[len(base):])
+        if rng.chance(1, 8):
+            nA = mutate_name(nA, rng, t)
+            if b"\0" in nA or len(nA) > 600:
+                nA = b"a.txt"
+        bop = rng.choice(["static", "template", "reload", "none", kindA, kindA, kindA])
+        nB = nA if rng.chance(3, 4) else b"a.txt"
+        k = rng.below(6)
+        if k < 3:
+            mut = ["f", H(abs_of(pa)), H(t.fresh(pa, b"RACE"))]
+        elif k == 3:
+            mut = ["l", H(abs_of(pa)), H(rng.choice([abs_of((b"outside", b"secret.txt")), up_from(pa[:-1], b"outside/secret.txt")]))]
+        elif k == 4:
+            mut = ["r", H(abs_of(pa)), H(b"")]
+        else:
+            mut = ["n", H(b""), H(b"")]
+        if rng.chance(1, 3):
+            sops.append(["reload"])
+        sops.append(["race", kindA, H(nA), bop, H(nB)] + mut)
+        sops.append([kindA, H(nA)])
+        if mut[0] in ("l", "r"):
+            c = t.fresh(pa, b"BACK")
+            sops.append(["put", "f", H(abs_of(pa)), H(c)])
+        if rng.chance(1, 2):
+            sops.append(["reload"])
+            sops.append([kindA, H(nA)])
+    return {"sops": sops, "tree_obj": t, "cfg": cfg, "cat": "race", "tree": idx}
 
 
 def gen_pure_case(rng):
@@ -722,9 +923,14 @@ def monitor_case(c, ops, impl, W):
     contents = {}
     emb_ok = set(c.get("emb_contents", []))
     roots = {"static": None, "template": None}
+    mode = None
     for idx, (sop, line) in enumerate(zip(c["sops"], impl)):
         main, orc = split_oracle(line)
         op = sop[0]
+        if op == "newfs":
+            mode = "fs-perreq" if sop[2] == "1" else "fs-cached"
+        elif op == "newemb":
+            mode = "emb"
         if (main.startswith("throw") and not (op == "newfs" and main == "throw")) or main.startswith("crash:"):
             bad.append((idx, "C20: lookup throws/crashes: %s -> %s" % (op, main[:80])))
             continue
@@ -798,6 +1004,17 @@ def monitor_case(c, ops, impl, W):
                 if r is None or not any(under(r, comps_of(W) + list(w)) and comps_of(W) + list(w) != r for w in wheres):
                     bad.append((idx, "C20: %s %r returned the content of %r which is OUTSIDE the %s root %r" %
                                (op, nm_tok[1][:80], [b"/".join(w) for w in wheres][:3], kind, b"/" + b"/".join(r) if r else None)))
+            if got and op == "static" and mode in ("fs-perreq", "emb") and orc.get("rp", "~") != "~" and idx not in c.get("residual", []):
+                # BY LOCATION (theorem A4_every_point_located): nothing is cached in these modes and the file system is at rest, so the
+                # bytes must be the content the generator put AT realpath(<root>/<name>) and the gzip bytes those of <that path>.gz
+                where = tuple(comps_of(unhex(orc["rp"]))[len(comps_of(W)):])
+                for j, g in enumerate(got):
+                    if g in emb_ok and not (mode == "emb" and j == 0 and False):
+                        continue
+                    loc = where if j == 0 else where[:-1] + (where[-1] + b".gz",)
+                    if loc not in contents.get(g, []):
+                        bad.append((idx, "C20: %s %r returned bytes that are not the content of the file AT %r (they are the content of %r)" %
+                                    (op, nm_tok[1][:80], b"/".join(loc)[-80:], [b"/".join(w) for w in contents.get(g, [])][:3])))
             if got and op in ("static", "template") and "rp" in orc:
                 r = roots.get(kind)
                 if r == "none":
@@ -806,6 +1023,24 @@ def monitor_case(c, ops, impl, W):
                     bad.append((idx, "C20: %s %r served but the OS cannot resolve <root>/<name>" % (op, nm_tok[1][:80])))
                 elif r is not None and not under(r, comps_of(unhex(orc["rp"]))):
                     bad.append((idx, "C20: %s %r served but realpath(<root>/<name>) = %r is outside the root" % (op, nm_tok[1][:80], unhex(orc["rp"])[-80:])))
+        if op == "race" and sop[5] == "f":
+            contents.setdefault(sop[7][1], []).append(tuple(comps_of(sop[6][1].replace(W_TOKEN, b""))))
+        if op == "race" and " | " in main:
+            ra, rb = main.rsplit(" gated=", 1)[0].split(" | ", 1)
+            for kind, txt in ((sop[1], ra), (sop[3], rb)):
+                f = txt.split()
+                got = []
+                if f and f[0] == "found":
+                    got = [unhex(f[1])] + ([unhex(f[2].replace("!gzflag", ""))] if not f[2].startswith("~") else [])
+                elif f and f[0] == "some":
+                    got = [unhex(f[1])]
+                r = roots.get(kind if kind in ("static", "template") else "static")
+                for g in got:
+                    wheres = contents.get(g)
+                    if wheres is None:
+                        bad.append((idx, "C20: race returned bytes that are no file's content: %r" % g[:60]))
+                    elif r in (None, "none") or not any(under(r, comps_of(W) + list(w)) and comps_of(W) + list(w) != r for w in wheres):
+                        bad.append((idx, "C20: race (%s) returned the content of %r which is OUTSIDE the %s root" % (kind, [b"/".join(w) for w in wheres][:3], kind)))
         if op == "storm" and not main.startswith("storm ok"):
             bad.append((idx, "C20: swap storm: %s" % main[:120]))
         if op == "cont" and main in ("0", "1"):
@@ -869,15 +1104,58 @@ OBLIGATIONS = [
     {"id": "C20_Gen_skel", "theorem": "Iora.C20.Gen_skeleton", "kind": "gen-conformance",
      "statement": "operands of the checked calls: base/candidate/resolved/gz definitions and argument lists of weakly_canonical/isContained/is_regular_file/buildEntry/readFile"},
     {"id": "C20_Gen_roots", "theorem": "Iora.C20.Gen_roots", "kind": "gen-conformance", "statement": "static / templates / .gz"},
+    {"id": "C20_A3_embedded_template", "theorem": "Iora.C20.A3_embedded_template", "kind": "proved",
+     "statement": "embedded getTemplate: the bytes are those of the registry entry of EXACTLY this (lexically accepted) name; no file system is consulted (same answer in every file-system state); the Assets value is unchanged"},
+    {"id": "C20_A4_template", "theorem": "Iora.C20.A4_every_point_template", "kind": "proved",
+     "statement": "getTemplate, filesystem mode, one snapshot per system call, environment LeafOnly: fresh bytes are strictly inside the template root in the snapshot of the open"},
+    {"id": "C20_A4_located", "theorem": "Iora.C20.A4_every_point_located", "kind": "proved",
+     "statement": "by LOCATION: the bytes were read from the very location realpath(<root>/<name>) ended at (prefix = root), the gzip bytes from the location <last>.gz next to it"},
+    {"id": "C20_A6", "theorem": "Iora.C20.A6_read_loop", "kind": "proved",
+     "statement": "readFile's read loop, for EVERY sequence of read(2) answers before the EOF (full buffers, short reads, EINTR failures): the result is the concatenation of the data chunks; nothing after the EOF is read"},
+    {"id": "C20_A6_chunking", "theorem": "Iora.C20.A6_chunking_irrelevant", "kind": "proved",
+     "statement": "any chunking carrying the bytes d gives the same result as the model's kernelReads(bufSize from Gen) run, namely d"},
+    {"id": "C20_A6_error", "theorem": "Iora.C20.A6_read_error", "kind": "proved",
+     "statement": "an errno other than EINTR before the EOF: nullopt, never a partial content"},
+    {"id": "C20_M1", "theorem": "Iora.C20.M1_mime_from_table", "kind": "proved",
+     "statement": "the MIME type is the default or the second component of an entry of the source's table"},
+    {"id": "C20_Gen_mime", "theorem": "Iora.C20.Gen_mime", "kind": "gen-conformance", "statement": "MIME table: 21 entries, pairwise distinct lower-case keys starting with '.', default application/octet-stream"},
+    {"id": "C20_Gen_read", "theorem": "Iora.C20.Gen_read_loop", "kind": "gen-conformance", "statement": "read loop: buffer 65536, n>0 append, n==0 break, EINTR continue, other errno return nullopt"},
+    {"id": "C20_Gen_census", "theorem": "Iora.C20.Gen_census", "kind": "gen-conformance",
+     "statement": "census of EVERY fs::/std::filesystem:: call, path-typed local, ::open/::read/::close, stream, swap and /= token of the ten functions on the lookup paths (in-place mutation of a checked path variable is refused by the translator)"},
+    {"id": "C20_R0", "theorem": "Iora.C20.R0_shape_of_source", "kind": "gen-conformance",
+     "statement": "the lock skeleton extracted from the source (Shape.gen, built from the Gen lock facts) is the double-checked shape: probe under lock, build outside, second probe + emplace in ONE critical section, emplace, reload under lock clearing both caches"},
+    {"id": "C20_R1", "theorem": "Iora.C20.R1_sequential_refinement", "kind": "proved",
+     "statement": "the small-step machine refines the sequential model: one thread's steps back-to-back from any pool with the mutex free = getStaticFilesystemAt / getTemplateFilesystemAt / reload (result and caches)"},
+    {"id": "C20_R2", "theorem": "Iora.C20.R2_mutual_exclusion", "kind": "proved",
+     "statement": "N threads, EVERY schedule: no cache map is ever accessed by a thread that does not own _fs->mutex, a thread is in a critical section iff it owns the mutex (at most one), and a thread doing file I/O (build) never owns it"},
+    {"id": "C20_R2_step", "theorem": "Iora.C20.R2_invariant_step", "kind": "proved", "statement": "the mutex invariant is inductive (preserved by every step of every thread)"},
+    {"id": "C20_R3", "theorem": "Iora.C20.R3_cache_good_invariant", "kind": "proved",
+     "statement": "for ANY lock skeleton and any goodness predicates keyed by the NAME that every successful build establishes: caches, thread-locals and every returned value are good after EVERY schedule"},
+    {"id": "C20_R3_step", "theorem": "Iora.C20.R3_invariant_step", "kind": "proved", "statement": "the cache-goodness invariant is inductive: every step of every thread preserves it (the FsInv step lemma, two caches + reload)"},
+    {"id": "C20_R3_key", "theorem": "Iora.C20.R3_no_cross_key", "kind": "proved",
+     "statement": "a value returned for name k was initially cached under k or was built by a thread looking up k: never another key's entry"},
+    {"id": "C20_R4", "theorem": "Iora.C20.R4_winner_or_own", "kind": "proved",
+     "statement": "the second critical section returns the entry another thread inserted under the SAME key, or inserts and returns its own; that value is the key's entry afterwards"},
+    {"id": "C20_R4_emplace", "theorem": "Iora.C20.R4_emplace_never_overwrites", "kind": "proved", "statement": "without reload in the pool a present cache entry never changes along any schedule"},
+    {"id": "C20_R4_agree", "theorem": "Iora.C20.R4_threads_agree", "kind": "proved",
+     "statement": "cached mode, no reload: two lookups of the same key that returned a value returned THE SAME value (the cache entry)"},
+    {"id": "C20_R5", "theorem": "Iora.C20.R5_concurrent_history_inside", "kind": "proved",
+     "statement": "C20 under concurrency: canonical roots, every thread's snapshots LeafOnly for its own candidate: every blob/template returned by ANY thread under ANY interleaving (fresh, own, or another thread's entry) consists of bytes that were strictly inside the root at an open of some lookup of the schedule"},
+    {"id": "C20_R6", "theorem": "Iora.C20.R_second_find_matters", "kind": "proved",
+     "statement": "witness: A validates+misses, B inserts [7], the file changes, A builds [8] and returns B's [7] (the `chosen = it->second` branch)"},
+    {"id": "C20_R7", "theorem": "Iora.C20.R7_gatedRace_is_schedule", "kind": "proved",
+     "statement": "what the lockstep `race` op computes IS a run of the small-step machine for Shape.gen on an explicit schedule (A* B^8 A^8)"},
+    {"id": "C20_Gen_locks", "theorem": "Iora.C20.Gen_lock_skeleton", "kind": "gen-conformance",
+     "statement": "critical sections of the two caches (probe | build outside | probe+emplace in one section, emplace never overwrites, no unguarded access) and of reload"},
 ]
-LEANCHECK = ["IoraModel.Props.C20", "IoraModel.Lemmas.AssetsHistory", "IoraModel.Lemmas.AssetsPhases", "IoraModel.Lemmas.AssetsRoots", "IoraModel.Lemmas.AssetsWc", "IoraModel.Lemmas.AssetsLookup",
+LEANCHECK = ["IoraModel.Props.C20", "IoraModel.Props.C20Race", "IoraModel.Lemmas.AssetsRace", "IoraModel.Model.AssetsRace", "IoraModel.Lemmas.AssetsRead", "IoraModel.Lemmas.AssetsHistory", "IoraModel.Lemmas.AssetsPhases", "IoraModel.Lemmas.AssetsRoots", "IoraModel.Lemmas.AssetsWc", "IoraModel.Lemmas.AssetsLookup",
              "IoraModel.Lemmas.AssetsFuel", "IoraModel.Lemmas.AssetsWalk", "IoraModel.Lemmas.AssetsPath", "IoraModel.Model.Assets", "IoraModel.Gen.Assets"]
 NOT_PROVED = [
     "agreement of the model functions (kernel path walk, realpath, status, weakly_canonical, lexically_normal, lexically_relative, open(O_NOFOLLOW)) with libstdc++/glibc/Linux — partial by nature, checked by lockstep only",
     "SNAPSHOT ASSUMPTION: each path-taking system call of a lookup has its own file-system snapshot EXCEPT (a) the prefix loop + realpath(prefix) that weakly_canonical runs when the candidate does not exist, and (b) the inside of one realpath / one open — these are assumed atomic",
     "environment changes that are not LeafOnly while a lookup runs: a directory replaced, or a NEW intermediate symbolic link appearing between weakly_canonical and the open (Lean witness A4_residual_intermediate_link; reproduced on the real code by the `sched` residual cases) — the code's documented residual ('intermediate-component swaps would need openat() chains'); outside the property's quantifier (only the LEAF is replaced while the lookup runs)",
     "A3_embedded for a relative / non-existent / trailing-slash EXTERNAL_DIR or one spelled with '..' (lockstep only)",
-    "the cache's double-checked locking under concurrent getStatic/reload from several threads is not modelled (histories are sequential); the swap storm runs one looker-up thread",
+    "concurrency: the lock skeleton (Model/AssetsRace.lean) takes validation and build (all file I/O of one lookup) as one step each on the thread's own snapshots; deadlock freedom / termination under fair schedules, agreement of threads across a reload, and the C++ memory model below the mutex (std::mutex acquire/release is assumed sequentially consistent for the maps) are not proved; the real code is driven through ONE family of two-thread schedules (A parked before its build, B complete, A finishes) — other interleavings rest on the theorems only",
     "lifetime of the std::string_view returned by getTemplate: it dangles after reload() (ASan: heap-use-after-free when held across reload; the header documents the contract H-5/N-5 'copy before any reload') — a memory-lifetime matter outside C20's statement; the harness copies immediately",
 ]
 
@@ -886,7 +1164,7 @@ def strip_oracles(lines):
     return [split_oracle(l)[0] for l in lines]
 
 
-STATEFUL = ("tree", "put", "rm", "newfs", "newemb", "reload", "swapstatic", "swaptemplate", "storm", "sched")
+STATEFUL = ("tree", "put", "rm", "newfs", "newemb", "reload", "swapstatic", "swaptemplate", "storm", "sched", "readcfg", "race")
 
 
 def run_impl_only(ctx, hb, env, W, sops):
@@ -943,12 +1221,39 @@ def evaluate(ctx, hb, env, W, cases, acc):
     for c, impl, model in res:
         acc["dist"][c["cat"]] = acc["dist"].get(c["cat"], 0) + 1
         core = strip_oracles(impl)
+        mode = "-"
+        reach = acc.setdefault("reach", {})
+        for sop, full in zip(c["sops"], impl):
+            l, orc = split_oracle(full)
+            if sop[0] == "newfs":
+                mode = "fs-perreq" if sop[2] == "1" else "fs-cached"
+            elif sop[0] == "newemb":
+                mode = "emb" if c.get("ext_resolves", True) else "emb-unresolved"
+            if sop[0] in ("static", "template"):
+                nm = sop[1][1]
+                ans = (l.split() or ["?"])[0]
+                if ans in ("rejected", "none", "notfound") and sop[0] == "static" and ans == "rejected":
+                    ans = "rejected(lexical)" if ref_lexrej(nm) else "rejected(containment)"
+                if sop[0] == "template" and ans == "none":
+                    ans = "none(lexical)" if ref_lexrej(nm) else ("none(escape)" if orc.get("esc") == "1" else "none(other)")
+                k2 = "%s:%s:%s" % (mode, sop[0], ans)
+                acc["modestat"][k2] = acc["modestat"].get(k2, 0) + 1
+                if not ref_lexrej(nm) and orc.get("esc") == "1" and orc.get("reg") == "1":
+                    # measured on the implementation side, independently of the library's verdict
+                    shape = "through an escaping directory link" if orc.get("lf") == "f" else "an escaping leaf link" if orc.get("lf") == "l" else None
+                    if shape:
+                        m0 = "embedded" if mode.startswith("emb") else "filesystem"
+                        k3 = "%s %s lookups %s" % (m0, sop[0], shape)
+                        reach[k3] = reach.get(k3, 0) + 1
+            if sop[0] == "race":
+                k4 = "race:%s/%s gated=%s" % (sop[1], sop[3], l.rsplit("gated=", 1)[-1])
+                acc["modestat"][k4] = acc["modestat"].get(k4, 0) + 1
         for sop, l in zip(c["sops"], core):
-            if sop[0] in ("norm", "tree", "put", "rm", "reload"):
+            if sop[0] in ("norm", "tree", "put", "rm", "reload", "readcfg", "selftest"):
                 k = sop[0]
             else:
                 if sop[0] == "sched":
-                    k = "sched:%s@%s:%s %s" % (sop[1], sop[3], (l.split()[0] if l else ""), l.split()[-1])
+                    k = "sched%s:%s@%s:%s %s" % ("-embedded" if c["cat"] == "embedded" else "", sop[1], sop[3], (l.split()[0] if l else ""), l.split()[-1])
                 else:
                     k = sop[0] + ":" + (l.split()[0] if l else "") + ((" " + l.split()[-1]) if "swapped=" in l else "")
             acc["opstat"][k] = acc["opstat"].get(k, 0) + 1
@@ -975,25 +1280,47 @@ def evaluate(ctx, hb, env, W, cases, acc):
 
 
 def setup(ctx, quick):
-    ctx.translate(["assets"])
-    ok_build = ctx.lake_build(MODULES)
+    # the serve-layer harness (application.hpp + http_server.hpp, ~45 s with sanitizers) compiles while Lean builds
+    import threading
+    serve = {}
+    th = threading.Thread(target=lambda: serve.update(hb=ctx.build_harness("harness/c20_serve.cpp", sanitize=True)))
+    th.start()
+    ctx._c20_serve = (th, serve)
+    ctx.translate(["assets"] + S.SERVE_TRANSLATE)
+    ok_build = ctx.lake_build(MODULES + S.SERVE_MODULES)
     if ok_build:
-        ctx.audit(MODULES, OBLIGATIONS)
+        ctx.audit(MODULES + S.SERVE_MODULES, OBLIGATIONS + S.SERVE_OBLIGATIONS)
         if not quick:
-            ctx.leanchecker(LEANCHECK)
+            ctx.leanchecker(LEANCHECK + S.SERVE_LEANCHECK)
     else:
-        ctx.cov["obligations"] = len(OBLIGATIONS)
+        ctx.cov["obligations"] = len(OBLIGATIONS + S.SERVE_OBLIGATIONS)
     hb = ctx.build_harness("harness/c20_assets.cpp", sanitize=True)
     sandbox = os.path.join(os.path.realpath(ctx.work), "sb")
     os.makedirs(sandbox, exist_ok=True)
     stats = os.path.join(os.path.realpath(ctx.work), "stats.txt")
-    return hb, {"C20_SANDBOX": sandbox, "C20_STATS": stats}, sandbox.encode(), stats
+    env = {"C20_SANDBOX": sandbox, "C20_STATS": stats}
+    if hb:
+        # L7: do the interposers see what std::filesystem does on THIS toolchain?  A libstdc++ that went through statx()/fstatat()
+        # directly would leave the schedules of `sched` silently disabled: that is a failure of the machinery (exit 2), not of the code.
+        out, rc, err = ctx.run_lines([hb], ["selftest"], timeout=60, env=env)
+        st = split_oracle(out[0])[1] if out else {}
+        ctx.extra["interposer_selftest"] = st
+        if not ctx.violations and (not out or any(st.get(k) != "1" for k in ("stat", "realpath", "open", "read", "sane"))):
+            raise RuntimeError("C20 harness self-test: interposers of stat/realpath/open/read are not reached on this toolchain: %r %r" % (out[:1], err[-300:]))
+    return hb, env, sandbox.encode(), stats
 
 
 def replay(ctx):
     """Re-run the symbolic op list of a replay / corpus file on the real code and the model; exit 1 if it still fails."""
     obj = json.load(open(ctx.replay))
     hb, env, W, _ = setup(ctx, True)
+    ctx._c20_serve[0].join()
+    if S.is_serve_replay(obj):                      # serve-layer replays run on harness/c20_serve.cpp
+        still = S.replay_serve(ctx, obj, env, W) or bool(ctx.violations)
+        print("replay: %s" % ("still failing" if still else "no longer failing"))
+        import shutil
+        shutil.rmtree(ctx.work, ignore_errors=True)
+        return 1 if still else 0
     if not hb or not obj.get("sops"):
         print("replay: nothing to run (kind=%s)" % obj.get("kind"))
         return 1 if ctx.violations else 0
@@ -1021,11 +1348,13 @@ def run(ctx: Ctx):
     quick = ctx.tier == "quick"
     rng = ctx.rng
     hb, env, W, stats = setup(ctx, quick)
-    acc = {"dist": {}, "opstat": {}, "mismatch": 0}
+    acc = {"dist": {}, "opstat": {}, "mismatch": 0, "modestat": {}, "reach": {}}
+    if not hb:
+        ctx._c20_serve[0].join()
     if hb:
-        n_fs, n_emb, n_pure, n_storm, storm_iters = (220, 50, 30, 3, 3000) if quick else (2600, 600, 300, 20, 40000)
-        r1, r2, r3, r4 = rng.fork("fs"), rng.fork("emb"), rng.fork("pure"), rng.fork("storm")
-        plan = [("corpus", None)] + [("fs", i) for i in range(n_fs)] + [("emb", i) for i in range(n_emb)] + \
+        n_fs, n_emb, n_pure, n_storm, storm_iters, n_race = (200, 50, 30, 3, 3000, 16) if quick else (2600, 600, 300, 20, 40000, 300)
+        r1, r2, r3, r4, r5 = rng.fork("fs"), rng.fork("emb"), rng.fork("pure"), rng.fork("storm"), rng.fork("race")
+        plan = [("corpus", None)] + [("race", i) for i in range(n_race)] + [("fs", i) for i in range(n_fs)] + [("emb", i) for i in range(n_emb)] + \
                [("pure", i) for i in range(n_pure)] + [("storm", i) for i in range(n_storm)]
         batch = []
 
@@ -1042,6 +1371,10 @@ def run(ctx: Ctx):
                 batch.append(gen_emb_case(r2, i, quick))
             elif kind == "pure":
                 batch.append(gen_pure_case(r3))
+            elif kind == "race":
+                c = gen_race_case(r5, i)
+                if c:
+                    batch.append(c)
             else:
                 c = gen_storm_case(r4, i, storm_iters)
                 if c:
@@ -1049,14 +1382,47 @@ def run(ctx: Ctx):
             if len(batch) >= 200:
                 flush()
         flush()
+        ctx._c20_serve[0].join()
+        if ctx._c20_serve[1].get("hb"):
+            S.run_serve(ctx, env, W, 60 if quick else 700, acc, hb=ctx._c20_serve[1]["hb"])
+            ctx.extra["serve_layer"] = {k: dict(sorted(acc.get(k, {}).items())) for k in ("serve_status", "serve_shape", "render", "serve_probe")}
         ctx.extra["op_outcomes"] = dict(sorted(acc["opstat"].items()))
+        ctx.extra["op_outcomes_per_mode_and_reason"] = dict(sorted(acc["modestat"].items()))
+        must = ["embedded static lookups through an escaping directory link", "filesystem static lookups through an escaping directory link",
+                "filesystem template lookups through an escaping directory link", "embedded static lookups an escaping leaf link",
+                "filesystem static lookups an escaping leaf link", "filesystem template lookups an escaping leaf link"]
+        ctx.extra["generator_reach"] = {k: acc["reach"].get(k, 0) for k in must}
+        sched_r = sum(v for k, v in acc["opstat"].items() if k.startswith("sched") and "@R:" in k and k.endswith("fired=1"))
+        sched_g = sum(v for k, v in acc["opstat"].items() if k.startswith("sched") and "@G:" in k and k.endswith("fired=1"))
+        ctx.extra["embedded_mode_scheduled_mutations_fired"] = {pt: sum(
+            v for k, v in acc["opstat"].items() if k.startswith("sched-embedded:") and ("@%s:" % pt) in k and k.endswith("fired=1")) for pt in "CROGZ"}
+        ctx.extra["generator_reach"]["embedded-mode scheduled mutations that fired (any point)"] = sum(ctx.extra["embedded_mode_scheduled_mutations_fired"].values())
+        ctx.extra["generator_reach"]["scheduled mutations that fired at R"] = sched_r
+        ctx.extra["generator_reach"]["scheduled mutations that fired at G"] = sched_g
+        if any(k.startswith("race:") for k in acc["modestat"]):
+            ctx.extra["generator_reach"]["two-thread schedules where A was parked before its build"] = sum(
+                v for k, v in acc["modestat"].items() if k.startswith("race:") and k.endswith("gated=1"))
+        if not ctx.violations:
+            zero = [k for k, v in ctx.extra["generator_reach"].items() if v == 0]
+            if zero:
+                raise RuntimeError("C20 generator reach: these shapes were not reached at all in this run (machinery failure): %s" % zero)
         ctx.extra["residual_intermediate_link"] = {"scheduled": acc.get("residual_ops", 0), "outside_bytes_returned_by_real_code_and_model": acc.get("residual_leaks", 0),
                                                    "note": "outside the property's quantifier (only the LEAF is replaced while the lookup runs); the code documents it; Lean witness A4_residual_intermediate_link"}
         if os.path.exists(stats):
-            ctx.extra["storm_stats"] = open(stats).read().splitlines()[:40]
+            lines = open(stats).read().splitlines()
+            ctx.extra["storm_stats"] = [l for l in lines if l.startswith("storm")][:40]
+            tot = {}
+            for l in lines:
+                if l.startswith("reads "):
+                    for kv in l.split()[1:]:
+                        k, v = kv.split("=")
+                        tot[k] = tot.get(k, 0) + int(v)
+            ctx.extra["read_loop_counters"] = tot
+            if not ctx.violations and tot and (tot.get("second_data_read_same_fd", 0) == 0 or tot.get("eintr", 0) == 0 or tot.get("full64k", 0) == 0):
+                raise RuntimeError("C20 generator reach: the read loop never iterated / never saw EINTR / never filled its buffer: %r" % tot)
     ctx.extra["input_distribution"] = acc["dist"]
-    ctx.extra["repo_tree_sha"] = ctx.repo_tree_sha(ANCHOR_FILES)
-    ctx.extra["not_proved"] = NOT_PROVED
+    ctx.extra["repo_tree_sha"] = ctx.repo_tree_sha(ANCHOR_FILES + S.SERVE_ANCHOR_FILES)
+    ctx.extra["not_proved"] = NOT_PROVED + S.SERVE_NOT_PROVED
     ctx.assumptions += ["the file-system model functions (kernel path walk, realpath, status, weakly_canonical, lexically_normal/relative, open(O_NOFOLLOW)) are assumptions about libstdc++/glibc/Linux; "
                         "their agreement with the real ones is checked by lockstep on generated trees, not proved",
                         "all directories searchable and files readable (no permission errors); only regular files, directories and symbolic links; hard links, mount points and /proc magic links are out of scope",
